@@ -719,6 +719,39 @@ func c02Case(w *core.Worker, i int) {
 			w.Count("fixed_length_files_updated", 1)
 		}
 	}
+	// column names that hold what a CSV / TSV line is made of (line breaks, the delimiter, quotes): refused with nothing written, or
+	// the header reads back with the same names
+	if i%10 == 7 {
+		for _, name := range []string{"a\nb", "a\r\nb", "x\ry", "with,comma", "with\"quote", "with\ttab", "plain"} {
+			for _, fm := range []string{"CSV", "TSV"} {
+				fd := core.FreshDir(w.Work, "hdr")
+				q := "SELECT 1 AS `" + name + "`, 2 AS c"
+				out := "o." + strings.ToLower(fm)
+				r1 := core.RunProc(core.ProcOpts{Dir: fd, Args: csvqArgs("-q", "-f", fm, "--out", out, q), Timeout: 60 * time.Second})
+				b, rerr := os.ReadFile(filepath.Join(fd, out))
+				hviol := func(sig, what string) {
+					w.Violation(sig+":"+fm, fmt.Sprintf("%q written as %s: %s; file now %q", q, fm, what, truncateStr(string(b), 200)), c02Replay{Dialect: c02Dialect{Format: fm}, Path: "--out", Detail: q + ": " + what})
+				}
+				if r1.Code != 0 {
+					if rerr == nil && len(b) > 0 {
+						hviol("refused-but-written", fmt.Sprintf("exit %d but the file holds %d bytes", r1.Code, len(b)))
+					}
+					w.Count("hostile_column_names_refused", 1)
+					continue
+				}
+				r2 := core.RunProc(core.ProcOpts{Dir: fd, Args: csvqArgs("-q", "-f", "JSONL", "SELECT * FROM `"+out+"`"), Timeout: 60 * time.Second})
+				// csvq writes a line break inside a text as the file's own line break (cells alike): the three kinds are one here
+				wantKey, _ := json.Marshal(strings.ReplaceAll(strings.ReplaceAll(name, "\r\n", "\n"), "\r", "\n"))
+				want := "{" + string(wantKey) + ":\"1\",\"c\":\"2\"}"
+				got := strings.ReplaceAll(strings.ReplaceAll(strings.TrimSpace(r2.Stdout), ":1,", ":\"1\","), ":2}", ":\"2\"}")
+				got = strings.ReplaceAll(strings.ReplaceAll(got, "\\r\\n", "\\n"), "\\r", "\\n") // JSON spelling of the line breaks in the key
+				if r2.Code != 0 || got != want {
+					hviol("unreadable-after-write:column-name", fmt.Sprintf("the file reads back as %q (exit %d %s), expected %s", truncateStr(r2.Stdout, 200), r2.Code, truncateStr(r2.Stderr, 100), want))
+				}
+				w.Count("hostile_column_names_written", 1)
+			}
+		}
+	}
 	// column names that are paths into one JSON object (`a.b` next to `a`): whichever comes first, the result is either refused
 	// with nothing written or reads back with as many columns as were written
 	if i%10 == 7 {
